@@ -64,14 +64,26 @@ example : ∀ l ∈ (mkGrid 5 (gridRegions 3 [⟨0, 20, 0, 4⟩] [⟨0, 20, 0, 4
 (nor twice to one) and cell indices are in range — the invariant `HierarchicalDensityPlacement::
 check` asserts, C16 —, and demands are non-negative, then every positive-demand cell of a bin
 gets a coordinate strictly inside that bin. -/
-theorem spread_coord_inside (n : Nat) (bins : List Bin) (target : List Rat) (demand : List Int)
+theorem spread_coord_inside (n : Nat) (aLo aHi : Int) (bins : List Bin) (target : List Rat) (demand : List Int)
     (hdem : ∀ c, 0 ≤ demand.getD c 0) (hlh : ∀ b ∈ bins, b.lo < b.hi)
     (hnd : (bins.flatMap fun b => b.cells).Nodup) (hr : ∀ b ∈ bins, ∀ c ∈ b.cells, c < n) :
     ∀ b ∈ bins, ∀ c ∈ b.cells, 0 < demand.getD c 0 →
-      (b.lo : Rat) < (spreadCoord n bins target demand).getD c 0 ∧
-      (spreadCoord n bins target demand).getD c 0 < (b.hi : Rat) := by
+      (b.lo : Rat) < (spreadCoord n aLo aHi bins target demand).getD c 0 ∧
+      (spreadCoord n aLo aHi bins target demand).getD c 0 < (b.hi : Rat) := by
   intro b hb c hc hpos
-  exact (binLoop_inside target demand hdem n bins (List.replicate n 0) (by simp) hlh hnd hr).2.1 b hb c hc hpos
+  exact (binLoop_inside target demand hdem n bins (initCoords n aLo aHi target) (initCoords_length _ _ _ _)
+    hlh hnd hr).2.1 b hb c hc hpos
+
+/-- A cell that is in no bin (zero demand: fixed cells, movable cells of zero area) keeps its
+target clamped to the extent `[aLo, aHi]` of the placement area. -/
+theorem spread_coord_unassigned (n : Nat) (aLo aHi : Int) (bins : List Bin) (target : List Rat) (demand : List Int)
+    (hdem : ∀ c, 0 ≤ demand.getD c 0) (hlh : ∀ b ∈ bins, b.lo < b.hi)
+    (hnd : (bins.flatMap fun b => b.cells).Nodup) (hr : ∀ b ∈ bins, ∀ c ∈ b.cells, c < n)
+    (c : Nat) (hc : c < n) (hno : ∀ b ∈ bins, c ∉ b.cells) :
+    (spreadCoord n aLo aHi bins target demand).getD c 0 = clampTo aLo aHi (target.getD c 0) := by
+  rw [← initCoords_getD n aLo aHi target c hc]
+  exact (binLoop_inside target demand hdem n bins (initCoords n aLo aHi target) (initCoords_length _ _ _ _)
+    hlh hnd hr).2.2 c hno
 
 /-- Composition: an upper-bound placement (`spreadCoordX` or `spreadCoordY` of the legalizer)
 computed over bins whose limits are limits of the grid of `fromIspdCircuit` keeps the centre of
@@ -79,23 +91,23 @@ every cell that is allocated to a bin and has positive demand strictly inside th
 bounding box (`lims`/`A`/`B` are `limX`/`box.minX`/`box.maxX` or the y counterparts, as
 provided by `bins_inside_area`). -/
 theorem ub_centre_inside (lims : List Int) (A B : Int) (hl : ∀ l ∈ lims, A ≤ l ∧ l ≤ B)
-    (n : Nat) (bins : List Bin) (target : List Rat) (demand : List Int)
+    (n : Nat) (aLo aHi : Int) (bins : List Bin) (target : List Rat) (demand : List Int)
     (hdem : ∀ c, 0 ≤ demand.getD c 0)
     (hb : ∀ b ∈ bins, b.lo ∈ lims ∧ b.hi ∈ lims ∧ b.lo < b.hi)
     (hnd : (bins.flatMap fun b => b.cells).Nodup) (hr : ∀ b ∈ bins, ∀ c ∈ b.cells, c < n) :
     ∀ b ∈ bins, ∀ c ∈ b.cells, 0 < demand.getD c 0 →
-      (A : Rat) < (spreadCoord n bins target demand).getD c 0 ∧
-      (spreadCoord n bins target demand).getD c 0 < (B : Rat) := by
+      (A : Rat) < (spreadCoord n aLo aHi bins target demand).getD c 0 ∧
+      (spreadCoord n aLo aHi bins target demand).getD c 0 < (B : Rat) := by
   intro b hbm c hc hpos
-  obtain ⟨h1, h2⟩ := spread_coord_inside n bins target demand hdem (fun b hb' => (hb b hb').2.2) hnd hr b hbm c hc hpos
+  obtain ⟨h1, h2⟩ := spread_coord_inside n aLo aHi bins target demand hdem (fun b hb' => (hb b hb').2.2) hnd hr b hbm c hc hpos
   have ha : (A : Rat) ≤ (b.lo : Rat) := by exact_mod_cast (hl b.lo (hb b hbm).1).1
   have hb' : (b.hi : Rat) ≤ (B : Rat) := by exact_mod_cast (hl b.hi (hb b hbm).2.1).2
   constructor <;> linarith
 
 /-- non-vacuity of `ub_centre_inside`: two bins `[0,5]`, `[5,10]` with cells `{0,2}` and `{1}` -/
-example : (0 : Rat) < (spreadCoord 3 [⟨0, 5, [0, 2]⟩, ⟨5, 10, [1]⟩] [7, 1, 3] [2, 4, 6]).getD 2 0 ∧
-    (spreadCoord 3 [⟨0, 5, [0, 2]⟩, ⟨5, 10, [1]⟩] [7, 1, 3] [2, 4, 6]).getD 2 0 < 10 :=
-  ub_centre_inside [0, 5, 10] 0 10 (by decide) 3 [⟨0, 5, [0, 2]⟩, ⟨5, 10, [1]⟩] [7, 1, 3] [2, 4, 6]
+example : (0 : Rat) < (spreadCoord 3 0 10 [⟨0, 5, [0, 2]⟩, ⟨5, 10, [1]⟩] [7, 1, 3] [2, 4, 6]).getD 2 0 ∧
+    (spreadCoord 3 0 10 [⟨0, 5, [0, 2]⟩, ⟨5, 10, [1]⟩] [7, 1, 3] [2, 4, 6]).getD 2 0 < 10 :=
+  ub_centre_inside [0, 5, 10] 0 10 (by decide) 3 0 10 [⟨0, 5, [0, 2]⟩, ⟨5, 10, [1]⟩] [7, 1, 3] [2, 4, 6]
     (by
       intro c
       rw [List.getD_eq_getElem?_getD]
@@ -104,10 +116,38 @@ example : (0 : Rat) < (spreadCoord 3 [⟨0, 5, [0, 2]⟩, ⟨5, 10, [1]⟩] [7, 
       | c + 3 => simp)
     (by decide) (by decide) (by decide) ⟨0, 5, [0, 2]⟩ (by simp) 2 (by simp) (by decide)
 
+/-- Every cell: with the invariant that bins hold only cells of positive demand (the
+constructor of `HierarchicalDensityPlacement` and `updateCellDemand` guarantee it), *every*
+cell index — in a bin or not, in particular movable cells of zero area — gets an upper-bound
+coordinate inside `[A, B]`, provided the extent `[aLo, aHi]` of the placement area is made of
+grid limits. -/
+theorem ub_every_cell_inside (lims : List Int) (A B : Int) (hl : ∀ l ∈ lims, A ≤ l ∧ l ≤ B)
+    (n : Nat) (aLo aHi : Int) (ha : aLo ∈ lims ∧ aHi ∈ lims ∧ aLo ≤ aHi)
+    (bins : List Bin) (target : List Rat) (demand : List Int)
+    (hdem : ∀ c, 0 ≤ demand.getD c 0)
+    (hb : ∀ b ∈ bins, b.lo ∈ lims ∧ b.hi ∈ lims ∧ b.lo < b.hi)
+    (hnd : (bins.flatMap fun b => b.cells).Nodup) (hr : ∀ b ∈ bins, ∀ c ∈ b.cells, c < n)
+    (hposbin : ∀ b ∈ bins, ∀ c ∈ b.cells, 0 < demand.getD c 0) :
+    ∀ c, c < n →
+      (A : Rat) ≤ (spreadCoord n aLo aHi bins target demand).getD c 0 ∧
+      (spreadCoord n aLo aHi bins target demand).getD c 0 ≤ (B : Rat) := by
+  intro c hc
+  by_cases hex : ∃ b ∈ bins, c ∈ b.cells
+  · obtain ⟨b, hbm, hcm⟩ := hex
+    obtain ⟨h1, h2⟩ := ub_centre_inside lims A B hl n aLo aHi bins target demand hdem hb hnd hr b hbm c hcm
+      (hposbin b hbm c hcm)
+    exact ⟨le_of_lt h1, le_of_lt h2⟩
+  · have hno : ∀ b ∈ bins, c ∉ b.cells := fun b hbm hcm => hex ⟨b, hbm, hcm⟩
+    rw [spread_coord_unassigned n aLo aHi bins target demand hdem (fun b hb' => (hb b hb').2.2) hnd hr c hc hno]
+    obtain ⟨c1, c2⟩ := clampTo_bounds aLo aHi ha.2.2 (target.getD c 0)
+    have a1 : (A : Rat) ≤ (aLo : Rat) := by exact_mod_cast (hl aLo ha.1).1
+    have a2 : (aHi : Rat) ≤ (B : Rat) := by exact_mod_cast (hl aHi ha.2.1).2
+    constructor <;> linarith
+
 /-- What a callback exposes of such a placement: the exported lower-left corner
 `round(v − w/2)` puts the exposed centre `x + w/2` within one half of the float centre, hence
 inside the bounding box enlarged by one half — the tolerance used by the direct oracle. -/
-theorem ub_exposed_centre (v : Rat) (w A B : Int) (hA : (A : Rat) < v) (hB : v < (B : Rat)) :
+theorem ub_exposed_centre (v : Rat) (w A B : Int) (hA : (A : Rat) ≤ v) (hB : v ≤ (B : Rat)) :
     (A : Rat) - 1 / 2 ≤ (exportCoord v w : Rat) + (1 / 2) * (w : Rat) ∧
     (exportCoord v w : Rat) + (1 / 2) * (w : Rat) ≤ (B : Rat) + 1 / 2 := by
   obtain ⟨h1, h2⟩ := round_err (v - (1 / 2) * (w : Rat))
